@@ -1,7 +1,7 @@
 (** C14: the uid filters decide by exact membership of the REAL uid — for every uid below 2^32 and every
     well-formed list (any length, order, duplicates, leading zeros); only_uid and exclude_uid disagree on
     EVERY argument; the decision does not depend on the effective uid.  For all constant records with
-    [filter_consts_ok]. *)
+    [uid_consts_ok]. *)
 From Snoopy Require Import Lib.CStr Filter.Model Filter.Proofs.
 From Coq Require Import ZifyBool ZifyN ZifyNat Znumtheory.
 Local Open Scope N_scope.
@@ -133,9 +133,9 @@ Qed.
 
 Section UidProofs.
   Variable c : filter_consts.
-  Hypothesis Hok : filter_consts_ok c = true.
+  Hypothesis Hok : uid_consts_ok c = true.
 
-  Ltac split_ok := unfold filter_consts_ok in Hok; repeat (apply andb_true_iff in Hok as [Hok ?]).
+  Ltac split_ok := unfold uid_consts_ok in Hok; repeat (apply andb_true_iff in Hok as [Hok ?]).
 
   Lemma ok_uid : 33 <= long_bits c /\ uid_bits c = 32 /\ only_query c = QGetuid /\ exclude_query c = QGetuid /\ root_query c = QGetuid
                  /\ only_conv c = ConvAtol /\ exclude_conv c = ConvAtol
